@@ -512,6 +512,12 @@ proctype Py() {
 	:: else -> break
 	od;
 	printf("END xc=%d pdead=%d viol=%d\n", xc, pdead, viol);
+	/* a session that ended with an exception: its owner discards the processor by force
+	 * (harness clean-up); the daemon may be anywhere, also blocked writing to a full pipe */
+	if
+	:: xc != X_NONE && !pdead -> killed = 1
+	:: else -> skip
+	fi;
 	/* the session is over; wait until the daemon is quiescent so each history has one end state */
 	((dstate == 1 && empty(p2d)) || dstate == 2);
 #ifdef ENUM
